@@ -6,9 +6,11 @@ import (
 	"flag"
 	"fmt"
 	"os"
+	"strings"
 	"time"
 
 	"verif/mc/engines/e1"
+	"verif/mc/engines/e2"
 	"verif/mc/hx"
 )
 
@@ -43,6 +45,28 @@ func main() {
 			(&e1.Checker{Rep: rep, Props: p}).Check(st)
 		} else {
 			e1.Run(rep, p, *tier, sh, deadline)
+		}
+	case "e2":
+		p := e2.ParseProps(*props)
+		if *replay != "" {
+			if strings.HasPrefix(*replay, "config ") {
+				cc, err := e2.ParseConfigCase(*replay)
+				if err != nil {
+					fmt.Fprintln(os.Stderr, err)
+					os.Exit(3)
+				}
+				(&e2.Checker{Rep: rep, Props: p}).CheckConfig(cc)
+				rep.Emit()
+				return
+			}
+			b, err := e2.ParseBattle(*replay)
+			if err != nil {
+				fmt.Fprintln(os.Stderr, err)
+				os.Exit(3)
+			}
+			(&e2.Checker{Rep: rep, Props: p}).Check(b)
+		} else {
+			e2.Run(rep, p, *tier, sh, deadline)
 		}
 	default:
 		fmt.Fprintln(os.Stderr, "unknown engine", eng)
